@@ -16,6 +16,12 @@ CHECKS = {
  "C15": (True, FE, "exhaustive single-fault injection at every write-call index of the real write_xml, plus short-write patterns",
          "For every corpus document (all repository inputs the generator accepts, generated seeds covering every emitter, a no-namespace WSDL) a failure is injected once at every write-call index k in [0,N) for each error kind (Other, BrokenPipe, PermissionDenied, StorageFull, Ok(0), Interrupted) and four short-write patterns are applied; the real write_xml must return an I/O error (never Ok, never panic) resp. the byte-identical output. All 105 write!/writeln! sites of the generator are reached by the corpus (checked against a static scan on every run).",
          "Quick tier: every k with every kind for documents up to 3000 write calls, every k with kind Other for larger ones, Exchange (128858 calls) only in the thorough tier. One fault per run (no fault pairs). Write-site attribution relies on line tables of an opt-level 0 build of zeep-lib.", "4/C15"),
+ "C11": (True, MC, "explicit enumeration of all import graphs (every edge subset) executed on the real reader in supervised workers",
+         "All 2^(n*n) directed import graphs on n<=4 files (self-loops, mutual imports, diamonds; 66 066 graphs, 121 k runs with the sibling variants) are generated, printed to real XSD/WSDL text and run through read_xml/write_xml in worker processes with a small stack; every run must end Ok, contain each component of each reachable file exactly once and nothing of unreachable files, and be byte-identical when unreachable siblings are removed, changed, malformed or not schemas. Thorough adds all variants at n=4 and all graphs on 5 files with <=6 edges.",
+         "Start file fixed to file 0 (relabelling symmetry); component multiplicity read lexically after the struct keyword; random graphs over more files are not done (sampling). A stack overflow or hang is an observation (worker abort / timeout), not a harness crash.", "4/C11"),
+ "C12": (True, MC, "exhaustive exploration of environment answers (hash keys via an in-binary getrandom, directory order via an in-binary readdir64), registration orders and call histories on the real library",
+         "For every accepted repository input and generated WSDLs with 2-4 operations: 256 (thorough 4096) hash seeds x all registration orders of the file set x call histories R.W, R.W.W, R.R, R.R.R, RW.RW on one input object x all directory enumeration orders through utils::read_input_file_and_xsd_files_at_path, plus genuinely fresh processes; every output must be byte-identical to the canonical one. A same-seed-twice self-test guards the harness's own determinism.",
+         "Hash seeds are a finite sweep (the evidence reports how many of the k! orders of a k-key canary map they realise: all for k<=3, 22-24 of 24 for k=4). The interposers rely on std binding getrandom/readdir64 to the symbols defined in the harness executable (checked by a self-test on every run).", "4/C12"),
 }
 
 NOT_YET = {
